@@ -531,8 +531,10 @@ void block_approx_ideal_restriction_pass2(const I Rp[], const int Rp_size,
                     rhs[i] = b0[b_ind0 + i];
                 }
 
-                // Solve system using GMRES
-                dense_GMRES(&A0[0], &rhs[0], &b0[b_ind0], num_DOFs,
+                // Solve system using GMRES (which scales its matrix in place when
+                // preconditioning, so every right-hand side gets its own copy)
+                std::vector<T> A0_rhs(A0);
+                dense_GMRES(&A0_rhs[0], &rhs[0], &b0[b_ind0], num_DOFs,
                             is_col_major, maxiter, precondition);
             }
         }
